@@ -315,12 +315,13 @@ func (u *Unit) beBytesSeq(st *State, v *Term, n int) SliceV {
 		bytes[i] = r
 		cur = q
 	}
-	j := Const("j", SInt)
-	res := bytes[n-1]
-	for i := n - 2; i >= 0; i-- {
-		res = Ite(Eq(j, IntLit(int64(i))), bytes[i], res)
-	}
-	r := u.virtRegion(st, u.defArr("BE", "j", res))
+	r := u.virtRegion(st, MkArr(func(j *Term) *Term {
+		res := bytes[n-1]
+		for i := n - 2; i >= 0; i-- {
+			res = Ite(Eq(j, IntLit(int64(i))), bytes[i], res)
+		}
+		return res
+	}))
 	return SliceV{Blk: r.Blk, Off: IntLit(0), Len: IntLit(int64(n)), Cap: IntLit(int64(n)), Elem: types.Typ[types.Uint8]}
 }
 
@@ -350,7 +351,6 @@ func (u *Unit) intrinsic(st *State, fr *Frame, in *ssa.Call, fn *ssa.Function, a
 		if len(parts) == 0 {
 			return u.zeroVal(types.NewSlice(types.Typ[types.Uint8])), true
 		}
-		j := Const("j", SInt)
 		type seg struct{ arr, off, start, end *Term }
 		var segs []seg
 		pos := IntLit(0)
@@ -360,12 +360,14 @@ func (u *Unit) intrinsic(st *State, fr *Frame, in *ssa.Call, fn *ssa.Function, a
 			segs = append(segs, seg{a, u.name(o, "co"), pos, end})
 			pos = end
 		}
-		body := IntLit(0)
-		for i := len(segs) - 1; i >= 0; i-- {
-			s := segs[i]
-			body = Ite(Lt(j, s.end), Select(s.arr, Add(s.off, Sub(j, s.start))), body)
-		}
-		r := u.virtRegion(st, u.defArr("CAT", "j", body))
+		r := u.virtRegion(st, MkArr(func(j *Term) *Term {
+			body := IntLit(0)
+			for i := len(segs) - 1; i >= 0; i-- {
+				s := segs[i]
+				body = Ite(Lt(j, s.end), Select(s.arr, Add(s.off, Sub(j, s.start))), body)
+			}
+			return body
+		}))
 		return SliceV{Blk: r.Blk, Off: IntLit(0), Len: pos, Cap: pos, Elem: types.Typ[types.Uint8]}, true
 	case "sub":
 		s := args[0].(SliceV)
@@ -382,12 +384,17 @@ func (u *Unit) intrinsic(st *State, fr *Frame, in *ssa.Call, fn *ssa.Function, a
 		a, o, l := u.seqOf(st, args[0])
 		sum := IntLit(0)
 		for i := int64(0); i < n; i++ {
-			sum = Add(Mul(sum, IntLit(256)), Select(a, Add(o, IntLit(i))))
+			by := Select(a, Add(o, IntLit(i)))
+			u.byteFact(by)
+			sum = Add(Mul(sum, IntLit(256)), by)
 		}
 		return Ite(Lt(l, IntLit(n)), IntLit(0), sum), true
 	case "val":
 		a, o, l := u.seqOf(st, args[0])
 		res := IntLit(0)
+		for i := int64(0); i < 8; i++ {
+			u.byteFact(Select(a, Add(o, IntLit(i))))
+		}
 		for n := int64(8); n >= 1; n-- {
 			sum := IntLit(0)
 			for i := int64(0); i < n; i++ {
